@@ -71,19 +71,20 @@ def str_probe_kinds(traits):
 
 class WireCase:
     __slots__ = ("id", "key", "placed", "settings", "ingest", "render", "syn_ok", "compiled", "errors", "ident", "traits",
-                 "instances", "truncated", "answer", "scan", "extra_obs")
+                 "instances", "truncated", "answer", "scan", "extra_obs", "api", "flags", "locate", "pretty")
 
     def __init__(self):
         self.extra_obs = {}
 
 
 def run(placed, settings, name, depth=2, want_str=False, limit=600, use_cache=True, mode="build", extra_probes=None,
-        keep_scan=False, clip_i64=True):
+        keep_scan=False, clip_i64=True, decorate=None, keep_api=False, need_target=True, keep_pretty=False, instances=True):
     """placed: list of dicts(id, doc, target). Returns list of WireCase (same order).
     extra_probes(case, traits) -> list of (kind, arg) additional probes for the target type (C11)."""
     ensure_dir(os.path.join(WORK, "cache"))
-    ck = key_of([tree_state(), code_state(), [(p["id"], p["doc"], p["target"]) for p in placed], settings, depth, want_str, limit, mode, name, keep_scan,
-                 "v3", extra_probes.__name__ if extra_probes else None])
+    ck = key_of([tree_state(), code_state(), [(p["id"], p["doc"], p["target"], p.get("settings"), p.get("ops")) for p in placed], settings, depth, want_str, limit, mode, name, keep_scan,
+                 "v5", instances, extra_probes.__name__ if extra_probes else None,
+                 (decorate.__module__ + "." + decorate.__name__) if decorate else None, keep_api, need_target, keep_pretty])
     cpath = os.path.join(WORK, "cache", "wire_%s.pkl" % ck)
     if use_cache and os.path.exists(cpath) and not os.environ.get("VERIF_NOCACHE"):
         with open(cpath, "rb") as f:
@@ -95,11 +96,11 @@ def run(placed, settings, name, depth=2, want_str=False, limit=600, use_cache=Tr
     for i, p in enumerate(placed):
         wc = WireCase()
         wc.id = p["id"]
-        wc.key = key_of([name, p["id"], p["doc"], settings])
+        wc.key = key_of([name, p["id"], p["doc"], p.get("settings", settings), p.get("ops")])
         wc.placed = p
-        wc.settings = settings
+        wc.settings = p.get("settings", settings)
         cases.append(wc)
-        job = {"id": str(i), "settings": settings, "ops": [{"root": p["doc"]}], "want": ["pretty", "scan", "api"]}
+        job = {"id": str(i), "settings": wc.settings, "ops": p.get("ops") or [{"root": p["doc"]}], "want": ["pretty", "scan", "api", "flags"]}
         if p["target"]:
             job["locate"] = [p["target"]]
         jobs.append(job)
@@ -109,6 +110,10 @@ def run(placed, settings, name, depth=2, want_str=False, limit=600, use_cache=Tr
         a = ans[str(i)]
         wc.answer = {k: v for k, v in a.items() if k in ("ops", "render", "syn_ok", "syn_err", "abort", "dead")}
         wc.scan = a.get("scan") if keep_scan else None
+        wc.api = a.get("api") if keep_api else None
+        wc.flags = a.get("flags")
+        wc.locate = a.get("locate")
+        wc.pretty = a.get("pretty") if keep_pretty else None
         wc.ingest = (a.get("ops") or [{"status": "abort"}])[0]
         wc.render = a.get("render")
         wc.syn_ok = a.get("syn_ok")
@@ -133,16 +138,22 @@ def run(placed, settings, name, depth=2, want_str=False, limit=600, use_cache=Tr
             for t in a["api"]["types"]:
                 if t["id"] == tid:
                     ident = t["ident"]
-        if not ident or not isinstance(ident, str):
+        if (not ident or not isinstance(ident, str)) and need_target:
             wc.ingest = {"status": "unlocated", "msg": "target type not found through add_type($ref)/root id"}
             continue
-        wc.ident = ident.replace(" ", "")
-        tb = traits_by_type(a.get("scan"))
-        wc.traits = tb.get(wc.ident, set())
-        kinds = ["de"]
-        if want_str:
-            kinds += str_probe_kinds(wc.traits)
-        bcases.append(batch.Case(wc.key, a["pretty"], {wc.ident: kinds}))
+        types = {}
+        if ident and isinstance(ident, str) and mode != "check":
+            wc.ident = ident.replace(" ", "")
+            tb = traits_by_type(a.get("scan"))
+            wc.traits = tb.get(wc.ident, set())
+            kinds = ["de"]
+            if want_str:
+                kinds += str_probe_kinds(wc.traits)
+            types = {wc.ident: kinds}
+        elif ident and isinstance(ident, str):
+            wc.ident = ident.replace(" ", "")
+        deco = decorate(wc, a) if decorate else {}
+        bcases.append(batch.Case(wc.key, a["pretty"], types, asserts=deco.get("asserts"), wrap_mod=deco.get("wrap_mod"), extra=deco.get("extra", "")))
     if bcases:
         b = batch.Batch(name, bcases, mode=mode)
         comp = b.compile()
@@ -157,6 +168,11 @@ def run(placed, settings, name, depth=2, want_str=False, limit=600, use_cache=Tr
         wc.compiled = comp[wc.key]["ok"]
         wc.errors = comp[wc.key]["errors"]
         if not wc.compiled or mode == "check":
+            continue
+        for k in wc.extra_obs.get("probes", []):
+            probes.append((wc.key, "@x", k, ""))
+            index.append((wc, "@x:" + k))
+        if not instances:
             continue
         doc = wc.placed["doc"]
         univ, trunc = universe.universe(doc, wc.placed["target"], depth=depth, limit=limit)
@@ -179,7 +195,9 @@ def run(placed, settings, name, depth=2, want_str=False, limit=600, use_cache=Tr
     if probes:
         results = b.run(probes)
         for (rec, kind), r in zip(index, results):
-            if kind == "de":
+            if kind.startswith("@x:"):
+                rec.extra_obs.setdefault("probe_results", {})[kind[3:]] = r
+            elif kind == "de":
                 rec["res"] = r
             else:
                 rec["str"][kind] = r
